@@ -12,7 +12,7 @@ add("C01", True, "E1-enumerator", "exhaustive small-scope enumeration of (pose, 
 add("C02", True, "E1-enumerator", "exhaustive enumeration of edge/graph configurations vs an independent homogeneous-matrix / Hamilton-product reference model (float and exact Fraction tiers)",
     "All single-edge configurations over the pose alphabets x information alphabet and all small edge multisets are compared with the reference error / chi2; consistency (chi2 = 0 iff measurement agrees), non-negativity and linearity in Omega are checked on every member.",
     "reference model vf/ref/geom.py + vf/ref/edges.py trusted; SE(3) rotational error accepted up to one global sign per evaluation", "DESIGN.md 4 C02")
-add("C03", False, "E1-enumerator", "exhaustive enumeration of small graph shapes (types x edge multisets x fixed subsets x list orders x ids) vs dense reduced Gauss-Newton reference step",
+add("C03", True, "E1-enumerator", "exhaustive enumeration of small graph shapes (types x edge multisets x fixed subsets x list orders x ids) vs dense reduced Gauss-Newton reference step",
     "Every well-posed configuration of the bounded graph-shape family is optimised for one iteration and compared with pose [+] dx_ref from an independently assembled dense reduced system.",
     "edge errors/Jacobians taken from the edges themselves (C01/C02 own them); numpy dense solve trusted on <=40x40 well-conditioned systems", "DESIGN.md 4 C03")
 add("C04", False, "E1-enumerator", "exhaustive enumeration of all connected multigraphs on <=4(5) labelled R^n vertices x fixed subsets x initial guesses x information, vs closed-form weighted least squares",
